@@ -77,6 +77,12 @@ def gen_C15(ctx, n):
             for nm in ("NA", "HA"):
                 if nm in cfg:
                     cfg[nm]["aggr"] = 0.3
+        if i % 4 == 1:
+            # limit prices written as Python ints (whole numbers), far outside the band as well
+            for nm in ("NA", "HA"):
+                if nm in cfg:
+                    cfg[nm]["pIntPrice"] = 0.5
+                    cfg[nm]["aggr"] = max(cfg[nm].get("aggr", 0.02), 0.2)
         for k, s in enumerate(cfg["simulation"]["sessions"]):
             s["withOrderPlacement"] = True
             s["withOrderExecution"] = rng.random() < 0.8
@@ -156,6 +162,13 @@ def gen_C14(ctx, n):
             else:
                 ev.insert(0, "PLR")
         ses[k]["events"] = ev
+        others = [j for j in range(len(ses)) if j != k and ses[j]["iterationSteps"] > 0 and i % 6 != 3]
+        if "FPS" in ev and "OMS" in ev and others and i % 2 == 0:
+            # the two shocks belong to *different* sessions (each session's events are registered on their own)
+            j = rng.choice(others)
+            cfg["OMS"]["triggerTime"] = rng.randint(0, ses[j]["iterationSteps"] - 1)
+            ses[k]["events"] = [e for e in ev if e != "OMS"]
+            ses[j]["events"] = ["OMS"]
         yield cfg, rng.randint(0, 2 ** 31)
 
 
